@@ -1,7 +1,14 @@
-(* SpanSites.v — every span-computing site in a rule body (table regenerated from the Rust sources on
-   every run) uses one of the schemas proved in bounds in SpanSchemas.v. *)
-From Coq Require Import List String.
-Require Import Tables_spanexprs.
+(* SpanSites.v — the tie between the rule bodies and the proved span schemas (tables regenerated from the Rust
+   sources on every run by tools/tables/spanexprs.py):
+     rule_span_sites        every site where a span is COMPUTED uses one of the schemas of SpanSchemas.v;
+     rule_lint_sites        the `span` field of every `Lint { .. }` constructed in ANY rule file is a token's span, the
+                            hull of a token slice, or one of the computed schemas — and every rule file either
+                            constructs such a Lint or only instantiates MapPhraseLinter (the two files named below);
+     rule_suggestion_sites  `enum Suggestion` has exactly the three variants of Model/Suggestion.v and every
+                            constructor / helper a rule file uses builds one of them. *)
+From Coq Require Import List String Arith Lia.
+Require Import Base SpanSchemas Tables_spanexprs.
+Import ListNotations.
 
 Definition schema_known (s : span_schema) : bool :=
   match s with Unknown => false | Between | SuffixSpan | WithLen1 => true end.
@@ -9,3 +16,71 @@ Definition schema_known (s : span_schema) : bool :=
 Lemma rule_span_sites_known :
   forallb (fun e => schema_known (snd e)) rule_span_sites = true /\ 40 <= rule_files_scanned.
 Proof. split; [vm_compute; reflexivity|]. unfold rule_files_scanned. repeat constructor. Qed.
+
+(* ---------- every Lint construction of every rule file ---------- *)
+Definition lint_src_known (s : lint_span_src) : bool :=
+  match s with LUnknown => false | _ => true end.
+
+(* a rule file is covered when it constructs a Lint (then all its constructions are in rule_lint_sites), or
+   constructs none and instantiates MapPhraseLinter (whose own construction is in rule_lint_sites) *)
+Definition file_covered (f : string * nat * list string) : bool :=
+  let '(name, n, dl) := f in
+  if Nat.eqb n 0 then existsb (String.eqb "MapPhraseLinter") dl && existsb (fun e => String.eqb (fst (fst e)) "map_phrase_linter.rs") rule_lint_sites
+  else existsb (fun e => String.eqb (fst (fst e)) name) rule_lint_sites.
+
+Definition files_without_lint : list string :=
+  map (fun f => fst (fst f)) (filter (fun f => Nat.eqb (snd (fst f)) 0) rule_files).
+
+(* the rule files that construct no Lint themselves, by name: both only build MapPhraseLinter instances *)
+Definition files_without_lint_expected : list string := ["closed_compounds.rs"; "phrase_corrections.rs"]%string.
+
+Lemma rule_lint_sites_known :
+  forallb (fun e => lint_src_known (snd e)) rule_lint_sites = true /\
+  forallb file_covered rule_files = true /\
+  length rule_files = rule_files_scanned /\
+  files_without_lint = files_without_lint_expected.
+Proof. repeat split; vm_compute; reflexivity. Qed.
+
+(* what each classified source denotes over the spans `ts` of the tokens a rule is handed; the side conditions of
+   the computed schemas (a precedes b; the number token carries a 2-letter suffix; the word is non-empty) are part
+   of the denotation: they are the run-time premises monitored on the implementation *)
+Inductive src_denotes (ts : list span) : lint_span_src -> span -> Prop :=
+| D_tok t : In t ts -> src_denotes ts LTokSpan t
+| D_hull sub h : incl sub ts -> hull sub = Some h -> src_denotes ts LHull h
+| D_between a b s : In a ts -> In b ts -> send a <= sstart b -> span_new (sstart a) (send b) = Ok s -> src_denotes ts LBetween s
+| D_suffix t s : In t ts -> 2 <= send t - sstart t -> pulled_by (span_new_with_len (send t) 2) 2 = Some s -> src_denotes ts LSuffixSpan s
+| D_withlen1 t : In t ts -> sstart t < send t -> src_denotes ts LWithLen1 (with_len t 1).
+
+Lemma lint_src_in_bounds n ts k s : Forall (span_in n) ts -> src_denotes ts k s -> span_in n s.
+Proof.
+  intros F D. rewrite Forall_forall in F. destruct D as [t Ht|sub h Hs Hh|a b s Ha Hb Hab Hs|t s Ht Hl Hs|t Ht Hl].
+  - now apply F.
+  - eapply hull_in_bounds; [|exact Hh]. apply Forall_forall. intros x Hx. apply F, Hs, Hx.
+  - destruct (between_in_bounds n a b (F a Ha) (F b Hb) Hab) as (s' & E & Hin). rewrite E in Hs. now injection Hs as <-.
+  - destruct (suffix_span_in_bounds n t (F t Ht) Hl) as (s' & E & Hin & _). rewrite E in Hs. now injection Hs as <-.
+  - apply with_len_1_in_bounds; [now apply F|assumption].
+Qed.
+
+Example lint_src_denotes_example :
+  src_denotes [mkspan 0 3; mkspan 4 6] LHull (mkspan 0 6) /\ src_denotes [mkspan 0 3; mkspan 4 6] LBetween (mkspan 0 6) /\
+  src_denotes [mkspan 0 3; mkspan 4 6] LWithLen1 (mkspan 4 5) /\ src_denotes [mkspan 0 3; mkspan 4 6] LSuffixSpan (mkspan 1 3).
+Proof.
+  repeat split.
+  - apply D_hull with (sub := [mkspan 0 3; mkspan 4 6]); [apply incl_refl|reflexivity].
+  - apply D_between with (a := mkspan 0 3) (b := mkspan 4 6); cbn; auto; lia.
+  - apply (D_withlen1 _ (mkspan 4 6)); cbn; auto.
+  - apply (D_suffix _ (mkspan 0 3)); cbn; auto.
+Qed.
+
+(* ---------- Suggestion constructors ---------- *)
+Definition sugg_known (s : sugg_ctor) : bool := match s with SUnknown => false | _ => true end.
+
+(* the three constructors of Model/Suggestion.v with their payloads *)
+Definition suggestion_variants_expected : list (string * string) :=
+  [("ReplaceWith", "(Vec<char>)"); ("InsertAfter", "(Vec<char>)"); ("Remove", "")]%string.
+
+Lemma rule_suggestion_sites_known :
+  suggestion_variants = suggestion_variants_expected /\
+  forallb (fun e => sugg_known (snd e)) rule_suggestion_sites = true /\
+  60 <= length rule_suggestion_sites.
+Proof. repeat split; vm_compute; try reflexivity. repeat constructor. Qed.
